@@ -292,13 +292,13 @@ def run_builder(unit, fname, address, types, values, buflen=4096, null_buffer=Fa
         if nm in ("strchr", "memchr", "__builtin_strchr"):
             s = cstr(vals[0], n) if nm != "memchr" else None
             if isinstance(vals[0], str):
-                return 1 if vals[1] and chr(vals[1]) in vals[0] else 0
+                return 1 if vals[1] and chr(vals[1] & 0xff) in vals[0] else 0
             if nm == "memchr":
                 for i in range(vals[2]):
                     if model.deref(vals[0] + i, n) == (vals[1] & 0xff):
                         return vals[0] + i
                 return 0
-            i = s.find(chr(vals[1])) if vals[1] else len(s)
+            i = s.find(chr(vals[1] & 0xff)) if vals[1] else len(s)
             return vals[0] + i if i >= 0 else 0
         if nm in ("strspn", "strcspn"):
             s = cstr(vals[0], n)
@@ -393,6 +393,14 @@ def layout(address, types, values):
     return out, slots
 
 
+class OutOfBytes(FD.Unknown):
+    """the evaluated code reads a byte behind the bytes it was given (an Unknown for evaluations that only want a value, a
+    finding for the evaluations that decide where the code reads)"""
+    def __init__(self, msg, n, offset=None):
+        FD.Unknown.__init__(self, msg, n)
+        self.offset = offset
+
+
 class _Bytes:
     def __init__(self, data, split=None):
         self.d = data
@@ -403,12 +411,12 @@ class _Bytes:
             k = a - MSG
             if k < self.split:
                 return self.d[k]
-            raise FD.Unknown("read past the bytes of the message (offset %d of %d)" % (k, self.split), n)
+            raise OutOfBytes("read past the bytes of the message (offset %d of %d)" % (k, self.split), n, k)
         if SEG1 <= a < SEG1 + 0x10000:
             k = a - SEG1 + self.split
             if k < len(self.d):
                 return self.d[k]
-            raise FD.Unknown("read past the bytes of the message (offset %d of %d)" % (k, len(self.d)), n)
+            raise OutOfBytes("read past the bytes of the message (offset %d of %d)" % (k, len(self.d)), n, k)
         raise FD.Unknown("read at %#x" % a, n)
 
 
@@ -431,15 +439,37 @@ def _reader_eval(unit, fname, args, mem, stop_at=None, ring=None):
             out.append(chr(c))
         raise FD.Unknown("unterminated string", n)
 
+    rbox = {"ring": ring}
+
     def hook(n, ev):
         k = n.get("kind")
         ks = A.kids(n)
+        ring = rbox["ring"]
         if k == "StringLiteral":
             return A.string_literal(n)
         if k == "ImplicitCastExpr" and n.get("castKind") == "ArrayToPointerDecay" and A.string_literal(ks[0]) is not None:
             return A.string_literal(ks[0])
         if k == "CallExpr" and A.callee_name(n) in ("__assert_fail",):
             return 0
+        if k == "BinaryOperator" and n.get("opcode") == "&" and any(A.callee_name(c_) == "__ctype_b_loc" for c_ in A.calls_in(ks[0])):
+            # glibc's <ctype.h> macros: (*__ctype_b_loc())[(int)(c)] & mask - the classification table of the C locale
+            sub = [x for x in A.walk(ks[0]) if x.get("kind") == "ArraySubscriptExpr" and any(A.callee_name(c_) == "__ctype_b_loc" for c_ in A.calls_in(A.kids(x)[0]))]
+            if len(sub) != 1:
+                raise FD.Unknown("ctype macro", n)
+            names = [(x.get("referencedDecl") or {}).get("name") for x in A.walk(ks[1]) if x.get("kind") == "DeclRefExpr"]
+            if len(names) != 1 or names[0] not in _CTYPE_BITS:
+                raise FD.Unknown("ctype mask %r" % (names,), n)
+            return _ctype_c_locale(ev.ev(A.kids(sub[0])[1])) & _CTYPE_BITS[names[0]]
+        if k == "InitListExpr" and (A.qtype(n) or "").replace(" ", "") in ("ring_t[2]", "structring_t[2]") and len(ks) == 2 and \
+                all(x.get("kind") == "InitListExpr" and len(A.kids(x)) == 2 for x in ks):
+            # `ring_t ring[2] = {{msg, len}, {NULL, 0}}`: the two segments a length function is handed
+            rbox["ring"] = tuple((ev.ev(A.kids(x)[0]), ev.ev(A.kids(x)[1])) for x in ks)
+            return RING
+        if k == "InitListExpr" and not (A.qtype(n) or "").endswith("]"):
+            return ("object", "zero-initialised")          # `rtosc_arg_itr_t itr = {0}` / `rtosc_arg_t result = {0}`: members are slots
+        if k == "DeclRefExpr" and (n.get("referencedDecl") or {}).get("id") not in ev.env and FD.ctype(A.qtype(n))[0] not in ("int", "ptr", "float") \
+                and not (A.qtype(n) or "").endswith("]") and (n.get("referencedDecl") or {}).get("kind") == "VarDecl":
+            return ("object", (n.get("referencedDecl") or {}).get("name"))      # `return itr;`
         if ring is not None and k == "MemberExpr" and n.get("name") in ("data", "len") and ks:
             b = A.strip_casts(ks[0])
             idx = None
@@ -463,10 +493,11 @@ def _reader_eval(unit, fname, args, mem, stop_at=None, ring=None):
         if nm in ("strlen", "__builtin_strlen"):
             return len(cstr(vals[0], n))
         if nm in ("strchr", "__builtin_strchr"):
+            c_ = vals[1] & 0xff                      # (converted to char)
             if isinstance(vals[0], str):
-                return 1 if vals[1] and chr(vals[1]) in vals[0] else 0
+                return 1 if c_ and chr(c_) in vals[0] else 0
             s = cstr(vals[0], n)
-            i = s.find(chr(vals[1])) if vals[1] else len(s)
+            i = s.find(chr(c_)) if c_ else len(s)
             return vals[0] + i if i >= 0 else 0
         if nm == "memchr":
             if isinstance(vals[0], str):
@@ -497,6 +528,30 @@ def _reader_eval(unit, fname, args, mem, stop_at=None, ring=None):
 
 
 RING = 0x300000
+
+
+_CTYPE_BITS = {"_ISupper": 256, "_ISlower": 512, "_ISalpha": 1024, "_ISdigit": 2048, "_ISxdigit": 4096, "_ISspace": 8192, "_ISprint": 16384,
+               "_ISgraph": 32768, "_ISblank": 1, "_IScntrl": 2, "_ISpunct": 4, "_ISalnum": 8}
+
+
+def _ctype_c_locale(c):
+    """glibc's classification bits (little endian layout of <ctype.h>) of character c in the C locale"""
+    if not isinstance(c, int) or not -128 <= c < 256:
+        raise FD.Unknown("ctype of %r" % (c,), None)
+    if c < 0 or c > 127:
+        return 0
+    ch = chr(c)
+    up, lo, dg = "A" <= ch <= "Z", "a" <= ch <= "z", "0" <= ch <= "9"
+    xd = dg or ch in "abcdefABCDEF"
+    sp = ch in " \t\n\v\f\r"
+    pr = 32 <= c < 127
+    gr = 32 < c < 127
+    bl = ch in " \t"
+    cn = c < 32 or c == 127
+    al = up or lo
+    pu = gr and not (al or dg)
+    bits = [(up, 256), (lo, 512), (al, 1024), (dg, 2048), (xd, 4096), (sp, 8192), (pr, 16384), (gr, 32768), (bl, 1), (cn, 2), (pu, 4), (al or dg, 8)]
+    return sum(v for f_, v in bits if f_)
 
 
 def reader_checks(unit, address, types, values):
@@ -537,3 +592,54 @@ def ring_length(unit, data, split=None, cap=None):
         ring = ((MSG, split), (SEG1, total - split))
         mem = _Bytes(data[:total], split)
     return _reader_eval(unit, "rtosc_message_ring_length", [RING], mem, ring=ring)
+
+
+# ---------------------------------------------------------------------------------------------------------------------
+# accepted => in bounds: the validity predicate and the accessors evaluated on exactly the bytes of a (malformed) buffer
+
+SIZES = {"i": 4, "f": 4, "c": 4, "r": 4, "m": 4, "h": 8, "d": 8, "t": 8}
+
+
+def accepted_in_bounds(unit, data):
+    """-> None when rtosc_valid_message_p rejects the n bytes, else the list of places where the predicate or an accessor
+    leaves them (empty: everything stays inside).  Reads are those of the evaluated source; the payload an argument's
+    pointer announces (a string up to its terminator, a blob's length word and bytes, a fixed-width value) is followed
+    from the place the accessor hands to its decoder."""
+    n = len(data)
+    mem = _Bytes(data)
+    out = []
+
+    def run(what, fname, args, **kw):
+        try:
+            return _reader_eval(unit, fname, args, mem, **kw)
+        except OutOfBytes as e:
+            out.append("%s reads offset %s of a %d-byte buffer (%s)" % (what, e.offset, n, A.where(e.node) if getattr(e, "node", None) else "?"))
+            return None
+    ok = run("rtosc_valid_message_p", "rtosc_valid_message_p", [MSG, n])
+    if out:
+        return out
+    if not ok:
+        return None
+    na = run("rtosc_narguments", "rtosc_narguments", [MSG])
+    ts = run("rtosc_argument_string", "rtosc_argument_string", [MSG])
+    run("rtosc_itr_begin", "rtosc_itr_begin", [MSG])
+    if out or not isinstance(na, int):
+        return out
+    for k in range(min(na, 6)):
+        ty = run("rtosc_type(%d)" % k, "rtosc_type", [MSG, k])
+        r = run("rtosc_argument(%d)" % k, "rtosc_argument", [MSG, k], stop_at="extract_arg")
+        if not (isinstance(r, tuple) and r[0] == "stopped") or not isinstance(r[1][0], int):
+            continue
+        off, tag = r[1][0] - MSG, chr(r[1][1]) if isinstance(r[1][1], int) and 0 < r[1][1] < 128 else "?"
+        if tag in SIZES and off + SIZES[tag] > n:
+            out.append("argument %d ('%s') is decoded at offset %d..%d of a %d-byte buffer" % (k, tag, off, off + SIZES[tag], n))
+        elif tag in "sS" and (off >= n or 0 not in data[off:]):
+            out.append("argument %d ('%s') points at offset %d, no terminator follows inside the %d bytes" % (k, tag, off, n))
+        elif tag == "b":
+            if off + 4 > n:
+                out.append("argument %d (blob) has its length word at offset %d of a %d-byte buffer" % (k, off, n))
+            else:
+                ln = int.from_bytes(data[off:off + 4], "big")
+                if off + 4 + ln > n:
+                    out.append("argument %d (blob) announces %d bytes at offset %d of a %d-byte buffer" % (k, ln, off + 4, n))
+    return out
